@@ -67,8 +67,12 @@ ExecMain(e1, input, incls) ==
        ELSE B([e2 EXCEPT !.s = s1], "run", TRUE, FALSE)
 
 FirstCode == <<I("LOAD", "_first", "", 0, 0, "sym"), I("HALT", "", "", 0, 0, "")>>
-ExecBegin(e, input, incls) ==
-  LET e1 == [e EXCEPT !.execd = FALSE, !.exiting = FALSE, !.exit = NoVal] IN
+\* Exec first discards output that is still pending (prepare -> empty -> Flush).  After an ordinary Flush that is a no-op; after a
+\* graceful end whose final page failed to render, the unwinding that Flush deferred happens now: the render attempt has cleared
+\* DIRTY, so nothing is shown, nothing fails, and the session is reset.
+ExecBegin(e0, input, incls) ==
+  LET e == IF e0.execd /\ e0.exiting THEN [e0 EXCEPT !.s = EngineReset(e0.s)] ELSE e0
+      e1 == [e EXCEPT !.execd = FALSE, !.exiting = FALSE, !.exit = NoVal] IN
   \* first Exec on this engine object: SetInput in init refuses an over-long input before anything else happens
   IF ~e1.initd /\ incls = "long" THEN B(e1, "stop", FALSE, TRUE)
   \* (a blocked session stays blocked: the check is not run for it)
